@@ -288,7 +288,6 @@ class Inliner:
 
 def normalize_module(tree, modname):
     Spelling(methods=modname in KERNEL_MODULES).visit(tree)
-    IfAssign().visit(tree)
     inl = Inliner(tree)
     if inl.helpers or inl.methods:
         for n in tree.body:
@@ -298,5 +297,6 @@ def normalize_module(tree, modname):
                 for m in n.body:
                     if isinstance(m, ast.FunctionDef):
                         inl.process_function(m, n.name)
+    IfAssign().visit(tree)         # after inlining: a helper `return a if c else b` is inlined as an expression first
     ast.fix_missing_locations(tree)
     return tree
